@@ -362,6 +362,12 @@ def extract(repo=None, units=None, config_edits=None, extra_flags=None, srcdir=N
         units = [u for u in units if u in only]
     scratch = scratch_dir()
     extra = gen_headers(repo) + list(extra_flags or [])
+    if config_edits is None and os.environ.get("LA_CONFIG_EDITS"):
+        # thorough tier: the same rules over another build configuration, e.g. LA_CONFIG_EDITS="DEBUG=0"
+        config_edits = {}
+        for kv in os.environ["LA_CONFIG_EDITS"].split(","):
+            k, _, v = kv.partition("=")
+            config_edits[k.strip()] = v.strip() if v.strip() != "undef" else None
     if config_edits:
         d = make_config_dir(scratch, repo, config_edits)
         extra = ["-I" + d] + extra
